@@ -45,7 +45,7 @@ def predicted(out):
     ab = getattr(out[4], 'abstract_class', None)
     if ab:
         return {'kind': 'exc', 'cls_in': list(ab)}
-    return {'kind': 'exc', 'cls': out[1]}
+    return {'kind': 'exc', 'cls': out[1], 'msg': f'{out[4]} @ {out[2]}:{out[3]}'[:200]}
 
 
 def oblige(eng, name, bad, mk_case):
